@@ -380,6 +380,8 @@ class MasterDriver:
     def op_server_state(self, name, state, apps, foreign=()):
         self.lost.pop(name, None)       # an operator's explicit state event supersedes what presence implied
         self.state_event_step[name] = self.step_no
+        self.state_requested = getattr(self, 'state_requested', {})
+        self.state_requested[name] = (state, self.step_no, len(self.ops))
         listed = (list(apps or []) + list(foreign)) or None
         self.api.update_server_state(self.admin, name, state, listed)
         if state == 'frozen':
